@@ -34,6 +34,9 @@ const (
 	Pow53  = int64(1) << 53
 	// PanicValue is what a request panics with when the op says p=1
 	PanicValue = "c01 site request panic"
+	// SkipPrefix starts the panic value of a harness that cannot execute an op because an op it depends on
+	// (e.g. the sqlprep that yields the statement) is missing from a shrunk op list
+	SkipPrefix = "verif c01 skip:"
 )
 
 // Call is one parsed `site` op.
@@ -155,6 +158,7 @@ func Run(t *testing.T, gen func(r *verifh.Rng) []verifh.Section, newEnv func(nam
 				e := get(c.Name)
 				e.src.Set(c.U)
 				reqRuns := 0
+				skipped := false
 				panicked := "0"
 				ret := "none"
 				func() {
@@ -162,6 +166,8 @@ func Run(t *testing.T, gen func(r *verifh.Rng) []verifh.Section, newEnv func(nam
 						if p := recover(); p != nil {
 							if s, ok := p.(string); ok && s == PanicValue {
 								panicked = "1"
+							} else if ok && strings.HasPrefix(s, SkipPrefix) {
+								skipped = true
 							} else {
 								panicked = "other"
 							}
@@ -170,6 +176,11 @@ func Run(t *testing.T, gen func(r *verifh.Rng) []verifh.Section, newEnv func(nam
 					}()
 					ret = env.Invoke(c, MakeCtx(c.Ctx), func() { reqRuns++ })
 				}()
+				if skipped {
+					// the op cannot be executed in this (shrunk) context: an unparsable observation = a mismatch,
+					// never a verdict of the monitor
+					return "skipped-op-needs-an-earlier-op"
+				}
 				out := fmt.Sprintf("req=%d ret=%s panic=%s drew=%d %s", reqRuns, ret, panicked, e.src.Calls(),
 					breaker.VerifC01State(e.b))
 				if named {
